@@ -7,13 +7,35 @@ Definition l4_sum_ok (i : d_ip) : bool :=
   verify_sum (sum_words (di_src i) + sum_words (di_dst i) + di_proto i + lenN (di_payload i)
               + sum_words (di_payload i)).
 
+(* TCP options: the bytes between the fixed header and the data offset form a well-formed option list
+   (kind 0 ends the list, kind 1 is one byte, every other kind carries a length >= 2 that stays inside
+   the area).  Together with [dec_tcp] (5 <= data offset, data offset * 4 <= segment length) this is
+   "the data offset matches the real header": the property does not say that there are no options. *)
+Fixpoint opts_wf (fuel : nat) (o : bytes) : bool :=
+  match fuel with
+  | O => match o with [] => true | _ => false end
+  | S fuel' =>
+    match o with
+    | [] => true
+    | k :: rest =>
+      if k =? 0 then true
+      else if k =? 1 then opts_wf fuel' rest
+      else match rest with
+           | [] => false
+           | l :: _ => (2 <=? l) && (l <=? lenN o) && opts_wf fuel' (skipn (N.to_nat l) o)
+           end
+    end
+  end.
+
+Definition tcp_opts (p : bytes) (doff : N) : bytes := firstn (N.to_nat doff * 4 - 20) (skipn 20 p).
+
 Definition wf_l4 (i : d_ip) : bool :=
   let p := di_payload i in
   if di_proto i =? 6 then
     match dec_tcp p with
     | None => false
     | Some t =>
-      (dt_doff t =? 5) && l4_sum_ok i &&
+      (let o := tcp_opts p (dt_doff t) in opts_wf (length o) o) && l4_sum_ok i &&
       (if dt_flags t =? 18 then negb (dt_window t =? 0) else true)
     end
   else if di_proto i =? 17 then
